@@ -61,6 +61,11 @@ def cases(seed, tier):
                 # one very long list (about 60 KiB of names): the KEXINIT spans dozens of segments and recv() calls
                 cat = rng.choice(CATS)
                 p[cat] = p[cat] + ['n%04d-' % j + 'x' * rng.choice([40, 180]) + '@example.com' for j in range(rng.choice([60, 300]))]
+                for net in c['nets']:
+                    # tens of thousands of one-byte segments with a pause after each would take hours of simulated time per connection
+                    # (a slow peer, not a misbehaving tool): keep the byte-wise delivery, drop the pauses
+                    if net.get('seg', {}).get('mode') in ('byte', 'mss'):
+                        net['gap_us'] = 0
             rs = gen.case_rng(seed, ID, i, 'punct')
             if rs.random() < 0.1:
                 # RFC 4251 allows every printable US-ASCII character except the comma in a name: characters that mean something to
